@@ -234,28 +234,36 @@ func (pn Value[T]) Version() int {
 	return pn.version
 }
 
-func (pn Value[T]) InitializeForCLI(set *flag.FlagSet) {
+func (pn *Value[T]) InitializeForCLI(set *flag.FlagSet) {
 	if pn.CLI == nil {
 		return
 	}
+
+	// The flag starts out at the parameter's current value and takes its place:
+	// the default of a parameter declared in code, the saved value of one that
+	// was loaded from a graph file. Loading applies the saved value as a profile
+	// and Value() prefers a profile over the flag, so a flag given for a loaded
+	// graph was never seen.
+	current := pn.Value()
 	switch cli := any(pn.CLI).(type) {
 	case *CliConfig[string]:
-		cli.value = set.String(cli.FlagName, (any(pn.DefaultValue)).(string), cli.Usage)
+		cli.value = set.String(cli.FlagName, (any(current)).(string), cli.Usage)
 
 	case *CliConfig[float64]:
-		cli.value = set.Float64(cli.FlagName, (any(pn.DefaultValue)).(float64), cli.Usage)
+		cli.value = set.Float64(cli.FlagName, (any(current)).(float64), cli.Usage)
 
 	case *CliConfig[bool]:
-		cli.value = set.Bool(cli.FlagName, (any(pn.DefaultValue)).(bool), cli.Usage)
+		cli.value = set.Bool(cli.FlagName, (any(current)).(bool), cli.Usage)
 
 	case *CliConfig[int]:
-		cli.value = set.Int(cli.FlagName, (any(pn.DefaultValue)).(int), cli.Usage)
+		cli.value = set.Int(cli.FlagName, (any(current)).(int), cli.Usage)
 
 	case *CliConfig[int64]:
-		cli.value = set.Int64(cli.FlagName, (any(pn.DefaultValue)).(int64), cli.Usage)
+		cli.value = set.Int64(cli.FlagName, (any(current)).(int64), cli.Usage)
 	default:
 		panic(fmt.Errorf("parameter node %s has a type that can not be initialized on the command line. Please open up a issue on github.com/EliCDavis/polyform", pn.DisplayName()))
 	}
+	pn.appliedProfile = nil
 }
 
 func (pn Value[T]) SwaggerProperty() swagger.Property {
